@@ -109,6 +109,8 @@ class G:
 
     def add(self, node, typ):
         node['id'] = len(self.graph)
+        if 'interval' in node and self.chance(0.15):
+            node['interval_str'] = True        # spelled as a time string ('250ms')
         self.graph.append(node)
         self.types[node['id']] = typ
         return node['id']
